@@ -126,6 +126,19 @@ type userID int
 type userDur int64
 type userLevel uint8
 
+// a struct that embeds a nil pointer and a nil interface: the methods promoted from them exist in its method set, and
+// calling one dereferences nil inside the compiler-generated wrapper (not inside any user code)
+type embInner struct{ N int }
+
+func (e embInner) Hello() string   { return "hello" }
+func (e *embInner) PHello() string { return "phello" }
+
+type embStringer struct{ fmt.Stringer }
+type embNilOuter struct {
+	*embInner
+	Own string
+}
+
 // defined types over the basic kinds (type Colour string and friends): ordinary Go values, carried by their kind
 type colour string
 type weight float64
@@ -586,6 +599,10 @@ func fixtureByID(id string) (stick.Value, error) {
 			in = customSafe{in}
 		}
 		return in, nil
+	case "embnilmethod":
+		return embNilOuter{Own: "own"}, nil
+	case "embnilstringer":
+		return embStringer{}, nil
 	case "nilptrsafe":
 		return (*customSafe)(nil), nil
 	case "chan":
